@@ -62,3 +62,102 @@ package erpc
 // ---- C15: framework statuses are immutable ---------------------------------
 //@ func NewStatusByCodeText
 //@   property C15
+
+// ---- session.write: the single place where a frame is handed to the socket ----
+// (body verified under C07; here: what a caller may rely on about its frame)
+//@ trusted (*session).write
+//@   flags libframe
+//@   modifies as(message, type(*socket.message)).size, lockset, waitgroups
+
+// ---- C12: a reply goes out through the caller's transfer-filter pipe ---------
+// writeReply only rewrites status/body/codec (error replies) and temporarily the
+// service method; in particular the pipe handleCall built with AppendFrom stays.
+//@ func (*handlerCtx).writeReply
+//@   property C12 C04
+//@   flags libframe
+//@   requires ctxShape(c) && c.sess != nil
+//@   let mo = as(c.output, type(*socket.message))
+//@   modifies mo.status, mo.body, mo.bodyCodec, mo.serviceMethod, mo.size, lockset, waitgroups
+//@   requires[through-callers-pipe] @C12 mo.xferPipe.#inheritedFrom == as(c.input, type(*socket.message)).xferPipe
+//@   ensures[pipe-kept] @C12 mo.xferPipe == old(mo.xferPipe) && mo.xferPipe.filters == old(mo.xferPipe.filters)
+//@   ensures[error-reply-shape] @C04 !statOK(stat) ==> mo.status == stat && mo.body == nil && mo.bodyCodec == 0
+//@   ensures[ok-reply-untouched] @C04 statOK(stat) ==> mo.status == old(mo.status) && mo.body == old(mo.body) && mo.bodyCodec == old(mo.bodyCodec)
+//@   ensures[service-method-restored] mo.serviceMethod == old(mo.serviceMethod)
+
+//@ func (*handlerCtx).handleCall
+//@   property C12
+//@   flags recover-scope
+//@   requires ctxShape(c) && c.sess != nil
+
+// ---- user code (handlers, plugins) --------------------------------------------
+// Handlers and plugin hooks act on a context only through its public interface:
+// they may set the handling status, fill the reply (body, codec, status, meta,
+// extra filters), touch the request's body binder/metadata and the swap map; they
+// do not replace the context's messages, session, metadata or pipe OBJECTS.
+// They may panic. (Assumption about arbitrary user code, listed in the evidence.)
+//@ frameset msgUser(m *socket.message) = m.serviceMethod, m.status, m.body, m.ctx, m.bodyCodec, fields(m.meta), allelems(type(utils.argsKV)), m.xferPipe.filters, allelems(type(xfer.XferFilter))
+//@ frameset userCtx(c *handlerCtx) = c.stat, msgUser(as(c.input, type(*socket.message))), msgUser(as(c.output, type(*socket.message)))
+
+//@ iface dynamic:func(*erpc.handlerCtx, reflect.Value)
+//@   params hc arg
+//@   flags libframe may-panic
+//@   modifies userCtx(hc)
+//@ iface dynamic:func(*erpc.handlerCtx)
+//@   params hc
+//@   flags libframe may-panic
+//@   modifies userCtx(hc)
+//@ iface dynamic:func() int64
+//@   flags pure
+
+// stage functions of the plugin container (verified under C09; here their frame)
+//@ trusted (*pluginSingleContainer).preWriteReply
+//@   params p ctx
+//@   flags libframe may-panic
+//@   modifies userCtx(as(ctx, type(*handlerCtx)))
+//@ trusted (*pluginSingleContainer).postWriteReply
+//@   params p ctx
+//@   flags libframe may-panic
+//@   modifies userCtx(as(ctx, type(*handlerCtx)))
+//@ trusted (*pluginSingleContainer).preReadHeader
+//@   params p ctx
+//@   flags libframe may-panic
+//@   modifies userCtx(as(ctx, type(*handlerCtx)))
+//@ trusted (*pluginSingleContainer).postReadCallHeader
+//@   params p ctx
+//@   flags libframe may-panic
+//@   modifies userCtx(as(ctx, type(*handlerCtx)))
+//@ trusted (*pluginSingleContainer).preReadCallBody
+//@   params p ctx
+//@   flags libframe may-panic
+//@   modifies userCtx(as(ctx, type(*handlerCtx)))
+//@ trusted (*pluginSingleContainer).postReadCallBody
+//@   params p ctx
+//@   flags libframe may-panic
+//@   modifies userCtx(as(ctx, type(*handlerCtx)))
+//@ trusted (*pluginSingleContainer).postReadPushHeader
+//@   params p ctx
+//@   flags libframe may-panic
+//@   modifies userCtx(as(ctx, type(*handlerCtx)))
+//@ trusted (*pluginSingleContainer).preReadPushBody
+//@   params p ctx
+//@   flags libframe may-panic
+//@   modifies userCtx(as(ctx, type(*handlerCtx)))
+//@ trusted (*pluginSingleContainer).postReadPushBody
+//@   params p ctx
+//@   flags libframe may-panic
+//@   modifies userCtx(as(ctx, type(*handlerCtx)))
+//@ trusted (*pluginSingleContainer).postReadReplyHeader
+//@   params p ctx
+//@   flags libframe may-panic
+//@   modifies userCtx(as(ctx, type(*handlerCtx)))
+//@ trusted (*pluginSingleContainer).preReadReplyBody
+//@   params p ctx
+//@   flags libframe may-panic
+//@   modifies userCtx(as(ctx, type(*handlerCtx)))
+//@ trusted (*pluginSingleContainer).postReadReplyBody
+//@   params p ctx
+//@   flags libframe may-panic
+//@   modifies userCtx(as(ctx, type(*handlerCtx)))
+
+//@ trusted (*session).printRunLog
+//@   flags libframe
